@@ -20,8 +20,9 @@ CHECKS["C07"] = dict(
     parts=[
         dict(test="TestC07Seq", quick=160, thorough=12000, per_shard=30),
         dict(test="TestC07Conc", quick=128, thorough=8000, per_shard=20),
+        dict(test="TestC16Route", quick=80, thorough=2000, per_shard=20),
     ],
-    floors=dict(any={"TestC07Seq.reopens": 10, "TestC07Seq.replays": 20, "TestC07Conc.reports": 500}),
+    floors=dict(any={"TestC07Seq.reopens": 10, "TestC07Seq.replays": 20, "TestC07Conc.reports": 500, "TestC16Route.offwire_blocks": 30}),
     assumptions=["datastore Put is atomic", "block reports are traversal-shaped in the sequential phase (DESIGN C07)"],
 
 )
